@@ -255,6 +255,36 @@ var c01Templates = []tmpl{
 		}
 		return outInt(b)
 	}},
+	{"try-callee-fails-mid-expression", `try(func() { return c + [1][a] }, b)`, func(a, b, c, n int64) tOut {
+		if a == 0 || a == -1 {
+			return outInt(c + 1)
+		}
+		return outInt(b)
+	}},
+	{"try-callee-fails-inside-call-arguments", `g := func(x, y, z) { return x + y + z }; try(func() { return g(a, c, [1][a]) }, func(e) { return b }) + 1`, func(a, b, c, n int64) tOut {
+		if a == 0 || a == -1 {
+			return outInt(a + c + 1 + 1)
+		}
+		return outInt(b + 1)
+	}},
+	{"try-in-a-loop-callee-fails-mid-expression", `s := 0; for i := 0; i < 3; i++ { s += try(func() { return c + [1][a] }, b) }; s`, func(a, b, c, n int64) tOut {
+		if a == 0 || a == -1 {
+			return outInt(3 * (c + 1))
+		}
+		return outInt(3 * b)
+	}},
+	{"try-nested-inner-fails-mid-expression", `try(func() { return c + try(func() { return c * [1][a] }, func(e) { error("again") }) }, b)`, func(a, b, c, n int64) tOut {
+		if a == 0 || a == -1 {
+			return outInt(c + c)
+		}
+		return outInt(b)
+	}},
+	{"callback-fails-mid-expression-inside-map", `try(func() { return [1, 2].map(func(x) { return x + [1][a] }) }, func(e) { return [] }) | len`, func(a, b, c, n int64) tOut {
+		if a == 0 || a == -1 {
+			return outInt(2)
+		}
+		return outInt(0)
+	}},
 	{"error-raised", `error("boom"); a`, func(a, b, c, n int64) tOut { return outErr() }},
 	{"division-by-zero-error", `a / b`, func(a, b, c, n int64) tOut {
 		if b == 0 {
